@@ -17,7 +17,13 @@ Definition mpeer := (N * N)%type.
 
 Inductive bgpmsg :=
 | BUpdate (u : upd)    (* a BGP UPDATE, exploded by explode_withdrawals / explode_announcements *)
-| BSkip.               (* OPEN / KEEPALIVE / NOTIFICATION / ROUTE-REFRESH, or bytes bgp_msg() rejects: logged, skipped *)
+| BSkip                (* OPEN / KEEPALIVE / NOTIFICATION / ROUTE-REFRESH, or bytes bgp_msg() rejects: logged, skipped *)
+| BBad.                (* an UPDATE that cannot be taken apart: bgp_msg() lets the octets through (routecore checks the
+                          framing and the conventional fields there), but explode_announcements or explode_withdrawals
+                          returns an error (an NLRI inside MP_REACH_NLRI / MP_UNREACH_NLRI that does not parse, path
+                          attributes that do not parse). Both are called before anything is looked up, registered or
+                          sent; process_message returns the error and - since the repair of process_file - that record
+                          is logged and skipped like BSkip: nothing of it is applied, the file goes on. *)
 
 Inductive mrec :=
 | RPit (peers : list mpeer)                 (* TABLE_DUMP_V2 PEER_INDEX_TABLE *)
@@ -105,6 +111,20 @@ Fixpoint msgs_walk (parent : N) (r : reg) (recs : list mrec) : reg * list update
       let '(r2, us') := msgs_walk parent r1 rest in
       (r2, us ++ us')
   end.
+
+(* The messages part as it was before the repair: `process_message(..).await?` in process_file handed the error of
+   an UPDATE that cannot be taken apart on, so the file ended there - what was applied stayed, what lay behind the
+   record was never looked at (the queue went on with the next file). Kept for the statement of the repaired defect. *)
+Fixpoint msgs_walk_old (parent : N) (r : reg) (recs : list mrec) : reg * list update * fstatus :=
+  match recs with
+  | [] => (r, [], SOk)
+  | RMsg _ BBad :: _ => (r, [], SStop)
+  | rc :: rest =>
+      let '(r1, us) := msg_step parent r rc in
+      let '(r2, us', st) := msgs_walk_old parent r1 rest in
+      (r2, us ++ us', st)
+  end.
+Definition rec_bad (rc : mrec) : bool := match rc with RMsg _ BBad => true | _ => false end.
 
 (* process_file: the dump part runs iff the first record is a peer index table *)
 Definition process_file (parent : N) (r : reg) (f : mfile) : reg * list update * fstatus :=
@@ -196,6 +216,11 @@ Definition i_entries (rb : irib) (fam pfx : N) : list (mpeer * bool * N) :=
   omap (fun kv : (N * N * mpeer) * (bool * N) =>
           if bool_decide (kv.1.1.1 = fam /\ kv.1.1.2 = pfx) then Some (kv.1.2, kv.2.1, kv.2.2) else None)
        (map_to_list rb).
+
+(* Rib::match_prefix consults the multicast store only when the unicast answer is empty (RibModel.rib_query, the
+   semantics of the query as C11 records it); the property's reading is asked the same way *)
+Definition i_query (rb : irib) (af pfx : N) : list (mpeer * bool * N) :=
+  match i_entries rb af pfx with [] => i_entries rb (af + 2)%N pfx | l => l end.
 
 (* ------------------------------------------------------------------ *)
 (* shapes of files used in the statements *)
